@@ -5,6 +5,7 @@ import PycfModel.Model.Expand
 import PycfModel.Model.Catalogue
 import PycfModel.Model.Resolver
 import PycfModel.Model.Template
+import PycfModel.Model.IamCond
 /-
 Line protocol driver: one JSON operation per input line, one JSON result per output line.
 Executes the implementation models (I); proves nothing.
@@ -96,6 +97,46 @@ def declsOf (j : Json) : Except String (List (String × Template.ParamDecl)) := 
       | _ => .error "bad decl"
   | _ => .error "decls missing"
 
+partial def cvOf (j : Json) : Except String IamCond.V := do
+  match j with
+  | .null => pure .none
+  | .obj _ =>
+    match j.getObjVal? "s" with
+    | .ok (.arr #[.str a, .str b]) => pure (.str a b)
+    | _ =>
+    match j.getObjVal? "i" with
+    | .ok (.num n) => pure (.int n.mantissa)
+    | _ =>
+    match j.getObjVal? "b" with
+    | .ok (.bool b) => pure (.bool b)
+    | _ =>
+    match j.getObjVal? "dt" with
+    | .ok (.arr #[.num m, .bool a]) => pure (.dt m.mantissa a)
+    | _ =>
+    match j.getObjVal? "net" with
+    | .ok (.arr #[.bool v6, .str addr, .num l]) => pure (.net v6 addr.toNat! l.mantissa.toNat)
+    | _ =>
+    match j.getObjVal? "bytes" with
+    | .ok (.str b) => pure (.bytes b)
+    | _ =>
+    match j.getObjVal? "list" with
+    | .ok (.arr xs) => do pure (.list (← xs.toList.mapM cvOf))
+    | _ =>
+    match j.getObjVal? "fn" with
+    | .ok _ => pure .fn
+    | _ =>
+    match j.getObjVal? "other" with
+    | .ok (.str t) => pure (.other t)
+    | _ => .error s!"bad condition value {j.compress}"
+  | _ => .error s!"bad condition value {j.compress}"
+
+def kvsOf (j : Json) : Except String (List (String × IamCond.V)) := do
+  match j with
+  | .arr xs => xs.toList.mapM fun e => match e with
+    | .arr #[.str k, v] => do pure (k, ← cvOf v)
+    | _ => .error "bad key/value"
+  | _ => .error "array expected"
+
 def outside : Json := Json.mkObj [("outside_domain", .bool true)]
 
 def runOp (j : Json) : Except String Json := do
@@ -143,6 +184,19 @@ def runOp (j : Json) : Except String Json := do
     match r with
     | some b => pure (Json.mkObj [("hardcoded", .bool b)])
     | none => pure outside
+  | "cond" =>
+    let blk ← match j.getObjVal? "block" with
+      | .ok (.arr ops) => ops.toList.mapM fun o => match o with
+        | .arr #[.str n, ks] => do pure (n, ← kvsOf ks)
+        | _ => .error "bad operator"
+      | _ => .error "block missing"
+    let ctx ← kvsOf (← (j.getObjVal? "ctx"))
+    match IamCond.normalise blk with
+    | none => pure outside
+    | some nb =>
+      pure (Json.mkObj [("result", match IamCond.call nb ctx with
+        | some b => .bool b
+        | none => .null)])
   | "tokens" =>
     let t ← getStr j "text"
     let toks := Resolver.tokens t.toList
